@@ -408,6 +408,26 @@ def run_matrix(case):
             except Exception as ex:
                 fails.append('second unlock after adding a subkey raised %s: %s' % (type(ex).__name__, str(ex)[:60]))
             expect_locked(key, fails, 'after the second scope', sign=False)
+    elif how == 'base-exception':
+        # the scope is left through exceptions that are not `Exception`s: an interrupt, and the GeneratorExit of a generator that is
+        # closed while it is suspended inside the scope
+        class Halt(BaseException):
+            pass
+        try:
+            with key.unlock(pw):
+                raise Halt()
+        except Halt:
+            pass
+        expect_locked(key, fails, 'after a BaseException (not an Exception) inside the unlock scope', name=name)
+
+        def gen():
+            with key.unlock(pw):
+                yield 1
+                yield 2
+        g = gen()
+        next(g)
+        g.close()
+        expect_locked(key, fails, 'after a generator suspended inside the unlock scope was closed', name=name)
     elif how == 'mixed-passphrases':
         # the last component gets a passphrase of its own: unlock() with the first one opens the components before it, fails at that
         # one - and must leave everything locked (the block is never entered)
@@ -702,7 +722,7 @@ def enumerate_cases(tier, seed):
         kw['rseed'] = rnd.randrange(1 << 32)
         cases.append(kw)
 
-    ends = ['normal', 'exception', 'addsubkey', 'nested-wrong', 'mixed-passphrases']
+    ends = ['normal', 'exception', 'addsubkey', 'nested-wrong', 'mixed-passphrases', 'base-exception']
     pairs = [(c, h) for c in ciphers for h in HASH_NAMES]
     if not thorough:
         # covering sample: every cipher and every hash at least twice, spread over the key types
